@@ -98,6 +98,17 @@ reg('C06', 'Hypothesis generated sparse triples and feature stores vs triple-loo
     'without row tables; the no-feature-file path is compared (sign-free, eigen-gap guarded) with '
     'projections on eigenvectors computed independently.', TRUST + DS + ' numpy.linalg.eigh.')
 
+reg('C08', 'Hypothesis generated curation histories on dense datasets vs provenance / weighted-mean oracle',
+    'Cluster assignments are produced by generated merge/split/reassign/skip histories; the '
+    'merge map, empty ids, cluster count and every cluster waveform (single-template identity, '
+    'count-weighted mean on the dominant template\'s channels with channel restriction recomputed '
+    'independently, zero elsewhere) are compared with formulas on the stored arrays; un-curated '
+    'datasets with unused ids anywhere check the identity branch.', TRUST + DS)
+reg('C09', 'Hypothesis generated dense datasets vs direct-formula oracle',
+    'Amplitude, mean-amplitude, rescaled-waveform, peak-channel, duration and depth summaries of '
+    'generated datasets (ids without spikes at every position, unit factors, rates, curated or '
+    'not) are compared with the defining formulas evaluated on the stored arrays.', TRUST + DS)
+
 
 def main():
     props = [json.loads(l) for l in (HERE / 'properties.jsonl').read_text().splitlines() if l.strip()]
